@@ -77,7 +77,7 @@ def memEqualOld (m1 m2 : Mem) : Bool :=
     | .buf a, .buf b => a == b          -- mem1 && mem2 && memcmp(...) != 0 → false
     | _, _ => true
 
-/-- `tls_mem_equal` after fix F28 (lengths equal, NULL-ness equal, contents equal) -/
+/-- `tls_mem_equal` after fix F34 (lengths equal, NULL-ness equal, contents equal) -/
 def memEqual (m1 m2 : Mem) : Bool :=
   if m1.len != m2.len then false
   else if m1.isNull != m2.isNull then false
